@@ -8,7 +8,7 @@
    (independent printer) -> the real parser -> all 18 fields; move lists of generated games -> final fields + history keys;
    acceptance / rejection of mutated move strings; the `d` display through the real main loop. *)
 From Coq Require Import NArith ZArith List Bool String Ascii.
-From JV Require Import Gen.Consts Model.Bits Model.Chess Model.SearchChess Model.Fen Model.Abs Proofs.FenProofs Proofs.UciProofs Proofs.LegalInv Proofs.RulesUci Proofs.StartPos Proofs.PositionInv Proofs.GenProofs Proofs.RangeProofs Proofs.ZobristProofs Proofs.ConsProofs Proofs.CellProofs Proofs.FenBoard Proofs.FenText.
+From JV Require Import Gen.Consts Model.Bits Model.Chess Model.SearchChess Model.Fen Model.Abs Proofs.FenProofs Proofs.UciProofs Proofs.LegalInv Proofs.RulesUci Proofs.StartPos Proofs.PositionInv Proofs.GenProofs Proofs.RangeProofs Proofs.ZobristProofs Proofs.ConsProofs Proofs.CellProofs Model.FenSyntax Proofs.FenBoard Proofs.FenText Proofs.FenDecide.
 Import ListNotations.
 
 Theorem C05_accepts_only_legal : forall g tok m, parse_move g tok = Some m -> In m (legal_moves g) /\ to_uci m = tok.
@@ -63,6 +63,10 @@ Theorem C05_fen_text_is_parsed_exactly : forall g tl cs es hs fs,
   parse_uint 256 hs = Some (half g) -> parse_uint 65536 fs = Some (full g) ->
   new_from_fen (render tl ++ " " ++ (if white g then "w" else "b") ++ " " ++ cs ++ " " ++ es ++ " " ++ hs ++ " " ++ fs)%string = FOk g.
 Proof. exact fen_text_parses. Qed.
+(* the same with an executable hypothesis: fen_describes g F (Model/FenSyntax.v) decides "F has six blank-separated fields that describe
+   g, and g satisfies the executable invariant"; the check evaluates it on every FEN text it feeds to the engine *)
+Theorem C05_fen_describes_sound : forall g F, fen_describes g F = true -> new_from_fen F = FOk g.
+Proof. exact fen_describes_sound. Qed.
 (* the board field alone, for every board text *)
 Theorem C05_board_text_is_parsed_exactly : forall g, cons g -> range g -> forall tl,
   forallb tok_ok tl = true -> expand tl = map (who (st_of g)) (seqN 0 64) ->
@@ -93,6 +97,7 @@ Print Assumptions C05_accepted_move_is_legal_under_the_rules.
 Print Assumptions C05_every_legal_move_of_the_rules_is_accepted.
 Print Assumptions C05_history_recorded.
 Print Assumptions C05_fen_text_is_parsed_exactly.
+Print Assumptions C05_fen_describes_sound.
 Print Assumptions C05_board_text_is_parsed_exactly.
 Print Assumptions C05_start_fen_is_such_a_text.
 Print Assumptions C05_startpos_games_stay_inside_the_invariant.
